@@ -177,6 +177,16 @@ CLAIMS = {
          "schedule."),
    technique="Coq proof (frame property + induction over schedules) + generated static-storage inventory + ThreadSanitizer runs",
    ref="6 (C18)"),
+ "C19": dict(
+   text=("Theorems on the model of econftool (show, syntax, cat; built on the model of the library's readers): C19_show (the output "
+         "is the header plus the listing of exactly the object econf_readDirs returns for the same tree), C19_listing_blocks "
+         "(group-less keys first, then every section in the library's order), C19_every_key_printed, C19_nothing_else, C19_syntax "
+         "(exit 0 exactly when the library reports no error, otherwise the error line names file and line), C19_cat (the "
+         "consulted files in processing order). Tie: the REAL econftool binary (ASan build) on generated trees under "
+         "$ECONFTOOL_ROOT and absolute files: stdout, error line, exit status against the model. edit/revert are not modelled. "
+         "Known finding F21 (--delimiters >= 1024 bytes with an escape) is replayed and named."),
+   technique="Coq proof over a model of the tool on top of the reader model + differential runs of the real binary",
+   ref="6 (C19)"),
  "C10": dict(
    text=("Theorems C10_readonly / C10_sequences / C10_later_results / C10_merge_inputs: in the model every query (failing ones "
          "included), any finite sequence of them, and a merge leave the object(s) unchanged, for all objects. The model is tied "
